@@ -51,6 +51,7 @@ RULE = (
     "visibility difference), a deletion is non-trivial when the two recall vectors differ; distinct = distinct case key"
 )
 ASSUMPTIONS = [
+    "every case with a missing node is evaluated a second time with the missing nodes stored as invisible points that keep finite coordinates (what the GUI writes); all reported numbers must be identical",
     "perfect-count family: identical predictions for every total number N of ground-truth instances in 1..110 (thorough 1..200), one animal per frame, plus 7x7, 14x7, 49x2 (rounding of the recall axis n/N depends on N)",
     "animals of one frame are well separated (cross-animal OKS underflows to exactly 0), each gt instance has >= 1 visible node, detection scores are pairwise distinct (no ties in the VOC ordering)",
     "at least one ground-truth frame has a predicted LabeledFrame (otherwise Evaluator raises 'Empty Frame Pairs' by design: nothing is evaluated)",
@@ -271,13 +272,27 @@ def drop_env(env):
     shutil.rmtree(env["tmp"], ignore_errors=True)
 
 
-def build_labels(env, nodes, frames):
+def _stale(inst, p):
+    """Store every missing node of `inst` the way the GUI stores a node that was toggled off: the point stays INVISIBLE
+    but keeps finite coordinates in the raw point array (Instance.numpy() still shows NaN for it)."""
+    a = np.array(p, dtype="float64")
+    vis = ~np.isnan(a).any(axis=1)
+    base = np.nanmean(a[vis], axis=0) if vis.any() else np.array([3.0, 3.0])
+    for k in range(len(a)):
+        if not vis[k]:
+            inst.points["xy"][k] = base + np.array([2.0 + k, 1.0])
+            inst.points["visible"][k] = False
+    assert np.array_equal(np.isnan(inst.numpy()).any(axis=1), ~vis), "harness: stale representation changed the visible pattern"
+    return inst
+
+
+def build_labels(env, nodes, frames, stale=False):
     sio = env["sio"]
     sk, vid = env["sk"][nodes], env["video"]
     gt_lfs, pr_lfs = [], []
     for fr in frames:
         gt_lfs.append(
-            sio.LabeledFrame(video=vid, frame_idx=fr["idx"], instances=[sio.Instance.from_numpy(np.array(p, dtype="float64"), sk) for p in fr["gt"]])
+            sio.LabeledFrame(video=vid, frame_idx=fr["idx"], instances=[(_stale(sio.Instance.from_numpy(np.array(p, dtype="float64"), sk), p) if stale else sio.Instance.from_numpy(np.array(p, dtype="float64"), sk)) for p in fr["gt"]])
         )
         if fr["pr"] is None:
             continue
@@ -285,17 +300,19 @@ def build_labels(env, nodes, frames):
             sio.PredictedInstance.from_numpy(np.array(p["pts"], dtype="float64"), sk, point_scores=np.ones(nodes), score=float(p["score"]))
             for p in fr["pr"]
         ]
+        if stale:
+            insts = [_stale(i_, p["pts"]) for i_, p in zip(insts, fr["pr"])]
         pr_lfs.append(sio.LabeledFrame(video=vid, frame_idx=fr["idx"], instances=insts))
     gt = sio.Labels(labeled_frames=gt_lfs, videos=[vid], skeletons=[sk])
     pr = sio.Labels(labeled_frames=pr_lfs, videos=[vid], skeletons=[sk])
     return gt, pr
 
 
-def run_full(env, nodes, frames):
+def run_full(env, nodes, frames, stale=False):
     """Everything Evaluator reports for one label pair."""
     from sleap_nn.evaluation import Evaluator
 
-    gt, pr = build_labels(env, nodes, frames)
+    gt, pr = build_labels(env, nodes, frames, stale)
     ev = Evaluator(gt, pr)
     m = ev.evaluate()
     return {
@@ -574,6 +591,19 @@ def work(part, shard):
         errs = check_base(case, obs)
         if errs:
             part.violation(case, " | ".join(errs))
+        # representation independence: the same label pair with every missing node stored as an invisible point that keeps
+        # coordinates must evaluate to exactly the same numbers
+        if any(math.isnan(pt[0]) for fr in frames for g in fr["gt"] for pt in g) or any(math.isnan(pt[0]) for fr in frames if fr["pr"] for p in fr["pr"] for pt in p["pts"]):
+            part.count()
+            part.transition()
+            part.add("stale_representation_runs")
+            try:
+                obs2 = run_full(env, nodes, frames, stale=True)
+                if outcome_key(obs2) != outcome_key(obs) or check_base(case, obs2) != errs:
+                    diff = [k for k in ("mOKS", "n_fn") if repr(obs2[k]) != repr(obs[k])] + [k for k in ("mPCK",) if repr(obs2["pck"][k]) != repr(obs["pck"][k])]
+                    part.violation(dict(case, stale=True), f"representation: the metrics change when missing nodes are stored as invisible points with coordinates instead of NaN (differs in {diff or 'other entries'}; mPCK {obs['pck']['mPCK']} -> {obs2['pck']['mPCK']})")
+            except Exception as e:
+                part.violation(dict(case, stale=True), f"representation: raised {type(e).__name__}: {e} with invisible-point labels")
         if case.get("no_deletions"):
             part.add("perfect_count_cases")
             continue
@@ -659,6 +689,10 @@ def replay(case):
                 "known_signatures": {k: bool(p(case, "deletion-recall: " + json.dumps({"rises": rises}))) for k, p in KNOWN_PREDICATES.items()} if rises else {},
                 "violates": bool(rises),
             }
+        if case.get("stale"):
+            a, b = run_full(env, nodes, frames), run_full(env, nodes, frames, stale=True)
+            same_ = outcome_key(a) == outcome_key(b) and check_base(case, a) == check_base(case, b)
+            return {"violates": not same_, "nan_representation": {"mOKS": a["mOKS"], "mPCK": a["pck"]["mPCK"], "pck_voc.AR": a["pckvoc"]["pck_voc.AR"]}, "invisible_point_representation": {"mOKS": b["mOKS"], "mPCK": b["pck"]["mPCK"], "pck_voc.AR": b["pckvoc"]["pck_voc.AR"]}}
         obs = run_full(env, nodes, frames)
         errs = check_base(case, obs)
         return {
